@@ -74,6 +74,12 @@ SITES = [
     ('Expect(Rpt(x="a", k=`1`)) >> Rpt(x="a", k=`2`)', 'Expect("a"{1}) >> "a"{2}'),
     ('[Expect(Val(v=`1`)), Val(v=`2`)]', '[Expect("a" >> `1`), "a" >> `2`]'),
     ('let n = `1` in let m = `2` in (Rpt("a", k=n) << "b" | Rpt("a", k=m))', 'let n = `1` in let m = `2` in ("a"{n} << "b" | "a"{m})'),
+    # argument values that are equal for Python (1 == True; two structurally equal parsed objects) but are different
+    # values: each instantiation has its own outcome
+    ('[Expect(Val(`1`)), Val(`True`)]', '[Expect("a" >> `1`), "a" >> `True`]'),
+    ('[Expect(Val(`True`)), Val(`1`), Opt(Val(`0`))]', '[Expect("a" >> `True`), "a" >> `1`, Opt("a" >> `0`)]'),
+    ('let p = K in let q = K in [Expect(Val(p)), Val(q)]', 'let p = K in let q = K in [Expect("a" >> `p`), "a" >> `q`]'),
+    ('let p = K in let q = K in (Val(p) << "1" | Val(q))', 'let p = K in let q = K in (("a" >> `p`) << "1" | ("a" >> `q`))'),
     ('Wrap(x=/[ab]/, y=/[!?]/)', '/[!?]/ >> /[ab]/ << /[!?]/'),
     ('let n = /[ab]/ in Wrap(y="!", x=Eq(n))', 'let n = /[ab]/ in "!" >> (/[ab]/ where `lambda v: v == n`) << "!"'),
 ]
@@ -82,7 +88,7 @@ BAD_SITES = ['Pair()', 'Pair("a", "b")', 'Pair(z="a")']
 TEXTS = [''.join(p) for L in range(0, 4) for p in itertools.product('ab1', repeat=L)] + \
     ['aa', 'a-a', 'aa-aa', 'b.-b.', 'bb.-b.', 'bcbc-bc', 'babab-ab', '!1!', '1!', '2aa', '211', '1a', '(a)', '((a))', '(a)(b)',
      '(1)(2)', '()', '(())', 'abac', 'ababac', 'ac', 'az', 'ac!', 'ab!', 'a!', 'abab', 'aba', 'ababa', 'abb', 'aaa', 'aaaa', 'aab', 'ab', 'abab', '1a1a', 'ax', 'xxa', 'aq-aq', 'bb', 'bc', 'a.', 'bb-b', 'a1', '!a!', '?b!', 'a-a1',
-     'aabbaa', '11aa11', '1a1', '!b!', 'aa1', 'aab', 'aa', 'ab', '1111', 'aaaa', 'ab-ab', 'a1-a1', '!b!', 'b!b']
+     'aabbaa', '11aa11', '1a1aa', '1a1aa1', '1b1ba', '1a1ba', '1ab1aba', '1a1', '!b!', 'aa1', 'aab', 'aa', 'ab', '1111', 'aaaa', 'ab-ab', 'a1-a1', '!b!', 'b!b']
 
 
 def run(R):
